@@ -72,6 +72,22 @@ def observe(ops: List[Dict[str, Any]], doc_t: Dict[str, Any], entry: str) -> Dic
     try:
         if entry == "apply":
             out = jsonpath.patch.apply(copy.deepcopy(ops), doc)
+        elif entry == "builder-with-pointers-from-parts":
+            # the same operations through the builder, every pointer an object built from its (string) reference tokens
+            from jsonpath import JSONPointer
+
+            def ptr(text: str) -> Any:
+                return JSONPointer.from_parts([t.replace("~1", "/").replace("~0", "~") for t in text.split("/")[1:]], unicode_escape=False)
+
+            patch = JSONPatch()
+            for o in copy.deepcopy(ops):
+                if o["op"] in ("move", "copy"):
+                    getattr(patch, o["op"])(ptr(o["from"]), ptr(o["path"]))
+                elif o["op"] == "remove":
+                    patch.remove(ptr(o["path"]))
+                else:
+                    getattr(patch, o["op"])(ptr(o["path"]), o["value"])
+            out = patch.apply(doc)
         elif entry == "json-text-patched-twice":
             # the document given as JSON text: patched, the result edited by the caller, the same text patched again
             text_doc = json.dumps(untag(doc_t))
@@ -127,7 +143,7 @@ def replay(rec: Dict[str, Any]) -> List[Tuple[str, Dict[str, Any], str]]:
     ops = [op_dict(h) for h in hist]
     for k in range(1, len(hist) + 1):
         exp = hist[k - 1]["after"]
-        for entry in ("apply", "JSONPatch", "JSONPatch-applied-twice", "json-text-patched-twice"):
+        for entry in ("apply", "JSONPatch", "JSONPatch-applied-twice", "json-text-patched-twice", "builder-with-pointers-from-parts"):
             obs = observe(ops[:k], rec["doc0"], entry)
             disc = judge(exp, obs)
             if disc:
